@@ -377,6 +377,30 @@ func (p *packComp) Generate(rng *rand.Rand, n int, emit func(Case)) {
 		ops = append(ops, Op{Name: "pack flush"})
 		emit(Case{Ops: ops, Tag: "ops-" + mode})
 	}
+	// records on both sides of 64 KiB among small ones in one chunk (buffered / staged writers switch strategy by write size)
+	for _, mode := range modes {
+		for _, big := range []int{65535, 65536, 70000, 200000} {
+			mk := func(sz int, ch byte) []byte {
+				if mode == "d" {
+					return []byte("{\"m\":\"" + strings.Repeat(string(rune(ch)), sz) + "\"}")
+				}
+				body := bytes.Repeat([]byte{ch}, sz)
+				switch {
+				case sz < 32:
+					return append([]byte{byte(0xa0 + sz)}, body...)
+				case sz < 65536:
+					return append([]byte{0xda, byte(sz >> 8), byte(sz)}, body...)
+				default:
+					return append([]byte{0xdb, byte(sz >> 24), byte(sz >> 16), byte(sz >> 8), byte(sz)}, body...)
+				}
+			}
+			ops := []Op{{Name: "pack cfg", Strs: []string{mode}, Ints: []int64{4 << 20, 0}, Bytes: [][]byte{[]byte("mixed")}}}
+			ops = append(ops, Op{Name: "pack write", Bytes: [][]byte{mk(7, 'a')}}, Op{Name: "pack write", Bytes: [][]byte{mk(300, 'b')}},
+				Op{Name: "pack write", Bytes: [][]byte{mk(big, 'L')}}, Op{Name: "pack write", Bytes: [][]byte{mk(9, 'c')}},
+				Op{Name: "pack write", Bytes: [][]byte{mk(big+1, 'M')}}, Op{Name: "pack write", Bytes: [][]byte{mk(11, 'd')}}, Op{Name: "pack flush"})
+			emit(Case{Ops: ops, Tag: "mixed-large-" + mode})
+		}
+	}
 	// the shipped limits: 7 MiB / unlimited records (Forward modes), 5 MiB / 1000 records (Datadog), with ~9 MiB of 64 KiB records
 	realModes := []string{"p"}
 	if n >= 100000 {
